@@ -64,8 +64,8 @@ CHECKS = {
   "Bounded forests; one Ref target per node (mirrored in a second property); for overlapping clone_multiple arguments either copy is accepted as 'the corresponding copy'.",
   "5/C11"),
  "C12": ("domx+sched", "model_checking",
-  "explicit-state BFS over histories with colliding UniqueId tokens and hidden-state probes after every transition; exhaustive interleavings of concurrent UniqueId::now under a deterministic scheduler",
-  "Every reachable state (cap 6 quick / 7 thorough) of two DOMs whose instances carry UniqueId tokens from {none,u1,u2,nil}; after every transition uniqueness, preservation-unless-collision and freshness are checked and the private bookkeeping set is probed with every token.",
+  "explicit-state BFS over histories with colliding UniqueId tokens and hidden-state probes after every transition; bounded-exhaustive enumeration of files with equal ids (independent binary encoder, XML text) through the real readers followed by the same probes; exhaustive interleavings of concurrent UniqueId::now under a deterministic scheduler",
+  "Every reachable state (cap 6 quick / 7 thorough) of two DOMs whose instances carry UniqueId tokens from {none,u1,u2,nil}; after every transition uniqueness, preservation-unless-collision and freshness are checked and the private bookkeeping set is probed with every token. Readers: every forest of <=3 (4) instances x every token assignment, encoded by the independent binary encoder (two numberings, one class per node or one shared column) and as XML text (Properties before / after the children), decoded by rbx_binary / rbx_xml, then uniqueness, preservation, probes and a destroy-then-reinsert step. UniqueId::now: 2-3 threads x 1-3 calls, counter start 0 and near u32::MAX, clock and RNG pinned equal.",
   "Token alphabet of 3 ids + generated ids; builders with pairwise distinct tokens; overlapping clone_multiple excluded in this mode (entry order would matter).",
   "5/C12"),
  "C13": ("faults", "fault_enumeration",
